@@ -66,6 +66,9 @@ pub enum Act {
     Notify { f: u8, c: usize },
     /// dial P1 with explicit addresses extended through the behaviour(s)
     DialExt,
+    /// the muxer of live connection `c` will answer `poll_close` with an error / stay pending
+    /// (released by the drain suffix)
+    MuxClose { c: usize, ans: CloseAns },
 }
 
 #[derive(Clone, Copy, Debug, PartialEq, Eq, Serialize, Deserialize)]
@@ -97,6 +100,9 @@ pub struct LifeCfg {
     /// subject-specific variant (limit set, denying field, ...)
     #[serde(default)]
     pub variant: u8,
+    /// BFS depth for this configuration (0 = the tier's default)
+    #[serde(default)]
+    pub depth: usize,
 }
 
 #[derive(Clone, Debug, Default, Serialize)]
@@ -193,15 +199,22 @@ where
         let mut s = Sys { cfg, sys, conns: vec![], sw_seq: vec![], fs_seq: vec![], listener_up: false, drained: false, violation: None, att_owner: vec![], pending_in_cid: Default::default(), pending_out_pos: vec![], horizon_hits: 0, mismatch_resolved: false, forbidden: Default::default(), forbid_count: 0, notified: vec![], notify_seq: 0, full_log: vec![], limit_hit: false };
         s.ensure_listener();
         let sched = std::mem::replace(&mut s.sys.explore_schedule, false);
-        for n in 0..s.cfg.pre_established {
+        // start states: 0 = initial, 1 = [P1], 2 = [P1, P1], 3 = [P1, P2] already established
+        let pre: Vec<u8> = match s.cfg.pre_established {
+            0 => vec![],
+            1 => vec![1],
+            2 => vec![1, 1],
+            _ => vec![1, 2],
+        };
+        for (n, p) in pre.into_iter().enumerate() {
             // alternate outgoing / incoming so that both directions are present
             if n % 2 == 0 {
-                let _ = s.step(&Act::Dial { p: 1, cond: 0 });
+                let _ = s.step(&Act::Dial { p, cond: 0 });
             } else {
                 let _ = s.step(&Act::Incoming);
             }
             let k = s.sys.ctl.lock().unwrap().open_attempts()[0];
-            let _ = s.step(&Act::Ok { k, p: 1 });
+            let _ = s.step(&Act::Ok { k, p });
             let open = s.sys.ctl.lock().unwrap().open_attempts();
             for k in open {
                 let _ = s.step(&Act::Fail { k });
@@ -261,6 +274,7 @@ where
     fn addrs_of(p: u8) -> Vec<libp2p_core::Multiaddr> {
         match p {
             1 => vec![a(10), a(11)],
+            0 => vec![a(40)],
             _ => vec![a(20)],
         }
     }
@@ -640,17 +654,26 @@ where
         let mut v = Vec::new();
         let red = self.cfg.reduced;
         if self.conns.len() < self.cfg.max_conns % 10 {
-            for p in [1u8, 2] {
+            for p in [1u8, 2, 0] {
                 if red && p == 2 {
                     continue;
                 }
+                // dialing the local peer id itself (e.g. an own address with /p2p/<own id>)
+                if p == 0 && self.cfg.which != Which::C05 && red {
+                    continue;
+                }
                 for cond in 0..4u8 {
+                    if p == 0 && cond != 0 {
+                        continue;
+                    }
                     if red && cond != 0 && cond != 3 {
                         continue;
                     }
                     v.push(Act::Dial { p, cond });
                 }
-                v.push(Act::BehDial { p });
+                if p != 0 {
+                    v.push(Act::BehDial { p });
+                }
             }
             if !red {
                 v.push(Act::DialAddr);
@@ -673,9 +696,15 @@ where
         let live = self.live();
         for &c in &live {
             v.push(Act::Close { c });
-            let failed = self.mux_of(c).map(|m| m.lock().unwrap().fail).unwrap_or(true);
+            let (failed, ans) = self.mux_of(c).map(|m| { let m = m.lock().unwrap(); (m.fail, m.close_answer) }).unwrap_or((true, CloseAns::Err));
             if !failed {
                 v.push(Act::MuxFail { c });
+            }
+            if ans == CloseAns::Ok {
+                v.push(Act::MuxClose { c, ans: CloseAns::Err });
+                if !red {
+                    v.push(Act::MuxClose { c, ans: CloseAns::Pending });
+                }
             }
         }
         for p in [1u8, 2] {
@@ -739,7 +768,7 @@ where
             .map(|a| {
                 let m = a.mux.as_ref().map(|m| {
                     let m = m.lock().unwrap();
-                    format!("{}{}{}", m.fail as u8, m.closed as u8, m.dropped as u8)
+                    format!("{}{}{}{:?}", m.fail as u8, m.closed as u8, m.dropped as u8, m.close_answer)
                 });
                 format!("{:?}/{:?}/{}/{:?}", a.resolved, m, a.cancelled() as u8, matches!(a.kind, AttemptKind::Dial { .. }))
             })
@@ -784,7 +813,7 @@ where
     pub fn applicable(&self, act: &Act) -> bool {
         match act {
             Act::Ok { k, .. } | Act::Fail { k } => self.sys.ctl.lock().unwrap().attempts.get(*k).map(|a| a.open()).unwrap_or(false),
-            Act::Close { c } | Act::MuxFail { c } | Act::BehClose { c: Some(c), .. } | Act::Notify { c, .. } => self.live().contains(c),
+            Act::Close { c } | Act::MuxFail { c } | Act::BehClose { c: Some(c), .. } | Act::Notify { c, .. } | Act::MuxClose { c, .. } => self.live().contains(c),
             _ => true,
         }
     }
@@ -872,6 +901,11 @@ where
                     mux_wake(&m);
                 }
             }
+            Act::MuxClose { c, ans } => {
+                if let Some(m) = self.mux_of(*c) {
+                    m.lock().unwrap().close_answer = *ans;
+                }
+            }
             Act::List { op, p } => {
                 if *op == 0 {
                     self.forbidden.insert(*p);
@@ -929,6 +963,15 @@ where
                 for c in self.live() {
                     let cid = self.sys.cids[c];
                     self.sys.swarm.close_connection(cid);
+                }
+                // muxers that keep `poll_close` pending now complete it
+                let muxes: Vec<_> = self.sys.ctl.lock().unwrap().attempts.iter().filter_map(|a| a.mux.clone()).collect();
+                for m in muxes {
+                    let pending = m.lock().unwrap().close_answer == CloseAns::Pending;
+                    if pending {
+                        m.lock().unwrap().close_answer = CloseAns::Ok;
+                        mux_wake(&m);
+                    }
                 }
                 self.sys.kick();
                 self.settle();
@@ -1012,7 +1055,10 @@ where
 
     fn check_c53(&self) -> Result<(), String> {
         for &p in &self.forbidden {
-            let live = self.live_of(p);
+            // a connection whose muxer has been asked to close (and keeps the answer pending, a
+            // scripted environment behaviour) is being closed: only connections nobody tried to
+            // close count
+            let live: Vec<usize> = self.live_of(p).into_iter().filter(|&c| self.mux_of(c).map(|m| m.lock().unwrap().close_polled == 0).unwrap_or(true)).collect();
             if !live.is_empty() {
                 return Err(format!("forbidden-peer-connected :: P{p} is forbidden but connections {live:?} are still established at quiescence"));
             }
@@ -1296,7 +1342,7 @@ where
 }
 
 pub fn base(which: Which) -> LifeCfg {
-    LifeCfg { which, deny: DenyMask::default(), max_conns: 3, local_exec: false, reduced: false, explore_schedule: false, pre_established: 0, variant: 0 }
+    LifeCfg { which, deny: DenyMask::default(), max_conns: 3, local_exec: false, reduced: false, explore_schedule: false, pre_established: 0, variant: 0, depth: 0 }
 }
 
 pub fn run_generic<B: Subject>(ctx: &Ctx, which: Which, cfgs: Vec<LifeCfg>, depth: usize, sched: (usize, u32)) -> Outcome
@@ -1315,7 +1361,7 @@ where
         for (i, cfg) in cfgs.iter().enumerate() {
             // BFS of one configuration is sequential: stripe configurations over workers
             if ctx.mine(i as u64) {
-                explore_cfg::<B>(ctx, cfg, depth, 4_000_000, &mut out);
+                explore_cfg::<B>(ctx, cfg, if cfg.depth != 0 { cfg.depth } else { depth }, 4_000_000, &mut out);
             }
             // `without_executor` executions are isolated (fresh thread each): in the quick tier they
             // get the BFS only, the schedule exploration runs on the harness-executor configurations
@@ -1411,6 +1457,15 @@ pub fn run_c52(ctx: &Ctx) -> Outcome {
             cfgs.push(c);
         }
     }
+    // per-peer limit 2 with room in the total: two connections to P1 exist at the start, so that
+    // "one of two closes, then more are opened" is within depth
+    let mut c = base(Which::C52);
+    c.variant = 3;
+    c.max_conns = 4;
+    c.pre_established = 2;
+    c.reduced = true;
+    c.depth = ctx.tier.pick(5, 6);
+    cfgs.push(c);
     let mut o = run_generic::<crate::compose::Limited>(ctx, Which::C52, cfgs, ctx.tier.pick(4, 5), (ctx.tier.pick(3, 4), ctx.tier.pick(1, 2)));
     if ctx.replay.is_none() && o.get("nontrivial_states") == 0 {
         o.machinery("vacuity: no state ever reached a limit");
@@ -1425,10 +1480,11 @@ pub fn run_c53(ctx: &Ctx) -> Outcome {
     }
     let mk = |w: Which| {
         let mut v = Vec::new();
-        for pre in 0..3u8 {
+        for pre in 0..4u8 {
             let mut c = base(w);
             c.pre_established = pre;
-            c.max_conns = 3 + pre as usize - (pre > 0) as usize;
+            c.max_conns = 3 + (pre.min(2)) as usize - (pre > 0) as usize;
+            // the schedule exploration of the start state [P1, P2] needs P2 in its alphabet
             v.push(c);
         }
         v
